@@ -224,6 +224,9 @@ fn short(s: &str) -> String {
     let mut out = String::new();
     let mut last_digit = false;
     for ch in s.chars().take(160) {
+        if ch == '\n' || ch == '@' {
+            break;
+        }
         if ch.is_ascii_digit() {
             if !last_digit {
                 out.push('#');
